@@ -12,12 +12,14 @@ import (
 	"encoding/base64"
 	"encoding/json"
 	"fmt"
+	"io"
 	"math"
 	"math/rand"
 	"os"
 	"path/filepath"
 	"strconv"
 	"strings"
+	"syscall"
 	"time"
 
 	run "github.com/alibaba/RedisShake/redis-shake"
@@ -34,6 +36,7 @@ type dcCase struct {
 	Big      bool  `json:"big"`     // large binary values (long rendering per line: overlap between workers)
 	Chunked  bool  `json:"chunked"` // one hash above the loader's 16 MiB chunk limit
 	InfScore bool  `json:"inf"`     // sorted sets may carry +-inf scores
+	Slow     bool  `json:"slow"`    // input and output are FIFOs: the input arrives in two parts 1.5 s apart, the output is not read for 2.5 s
 	Seed     int64 `json:"seed"`
 }
 
@@ -55,15 +58,15 @@ type dcEntry struct {
 }
 
 type dcLine struct {
-	DB       *uint32  `json:"db"`
-	Type     string   `json:"type"`
-	ExpireAt *uint64  `json:"expireat"`
-	Key      string   `json:"key"`
-	Key64    *string  `json:"key64"`
-	Value64  *string  `json:"value64"`
-	Index    *int     `json:"index"`
-	Field64  *string  `json:"field64"`
-	Member64 *string  `json:"member64"`
+	DB       *uint32         `json:"db"`
+	Type     string          `json:"type"`
+	ExpireAt *uint64         `json:"expireat"`
+	Key      string          `json:"key"`
+	Key64    *string         `json:"key64"`
+	Value64  *string         `json:"value64"`
+	Index    *int            `json:"index"`
+	Field64  *string         `json:"field64"`
+	Member64 *string         `json:"member64"`
 	Score    json.RawMessage `json:"score"`
 }
 
@@ -134,13 +137,22 @@ func dcRun(in []byte) (interface{}, error) {
 			}
 			if rnd.Intn(12) == 0 {
 				sc := []byte(fmt.Sprintf("return redis.call('set', KEYS[1], '%d')", rnd.Intn(1000000)))
-				w.Aux([]byte("lua"), sc)
+				if rnd.Intn(2) == 0 {
+					// a longer script, stored compressed as a server does: indentation runs, a repeated call
+					sc = append(sc, []byte("\n        -- padding\n        redis.call('incr', KEYS[2]) redis.call('incr', KEYS[2]) r")...)
+					w.AuxStr([]byte("lua"), sc, rdbref.StrLZF)
+				} else {
+					w.Aux([]byte("lua"), sc)
+				}
 				ents = append(ents, &dcEntry{db: db, kind: "lua", script: sc, lines: 1})
 				continue
 			}
 			e := &dcEntry{db: db, kind: kinds[rnd.Intn(len(kinds))]}
 			for {
-				switch rnd.Intn(4) {
+				switch rnd.Intn(5) {
+				case 4:
+					// a long name with runs and a short period (stored compressed: overlapping back references)
+					e.key = []byte(fmt.Sprintf("session:%s%06d:abababababab", strings.Repeat("0", 10+rnd.Intn(30)), rnd.Intn(1000000)))
 				case 0:
 					e.key = []byte(fmt.Sprintf("key:%d", rnd.Intn(1000000)))
 				case 1:
@@ -233,7 +245,11 @@ func dcRun(in []byte) (interface{}, error) {
 				e.exp = uint64(1700000000+rnd.Intn(1000)) * 1000
 				w.ExpireSec(uint32(e.exp / 1000))
 			}
-			w.KeyStr(e.key, rdbref.StrAuto, rdbref.LenCanonical, typ, body)
+			if len(e.key) > 20 {
+				w.KeyStr(e.key, rdbref.StrLZF, rdbref.LenCanonical, typ, body) // long names are stored compressed
+			} else {
+				w.KeyStr(e.key, rdbref.StrAuto, rdbref.LenCanonical, typ, body)
+			}
 			switch e.kind {
 			case "string":
 				e.lines = 1
@@ -254,7 +270,45 @@ func dcRun(in []byte) (interface{}, error) {
 		file := w.Finish(true)
 		inPath := filepath.Join(cfg.Dir, fmt.Sprintf("in-%d.rdb", c.Id))
 		outBase := filepath.Join(cfg.Dir, fmt.Sprintf("out-%d", c.Id))
-		if err := os.WriteFile(inPath, file, 0644); err != nil {
+		slowDone := make(chan struct{})
+		if c.Slow {
+			// input and output are FIFOs: the run spans several of the tool's one-second progress ticks, with output pending
+			// (nobody reads it for 2.5 s) while the second part of the input arrives
+			os.Remove(inPath)
+			os.Remove(outBase + ".0")
+			if err := syscall.Mkfifo(inPath, 0644); err != nil {
+				return nil, err
+			}
+			if err := syscall.Mkfifo(outBase+".0", 0644); err != nil {
+				return nil, err
+			}
+			go func() {
+				f, err := os.OpenFile(inPath, os.O_WRONLY, 0)
+				if err != nil {
+					return
+				}
+				defer f.Close()
+				cut := len(file) * 6 / 10
+				f.Write(file[:cut])
+				time.Sleep(1500 * time.Millisecond)
+				f.Write(file[cut:])
+			}()
+			go func() {
+				defer close(slowDone)
+				r, err := os.Open(outBase + ".0")
+				if err != nil {
+					return
+				}
+				defer r.Close()
+				time.Sleep(2500 * time.Millisecond)
+				cp, err := os.Create(outBase + ".copy")
+				if err != nil {
+					return
+				}
+				defer cp.Close()
+				io.Copy(cp, r)
+			}()
+		} else if err := os.WriteFile(inPath, file, 0644); err != nil {
 			return nil, err
 		}
 		lines := make([]int, len(ents))
@@ -283,6 +337,14 @@ func dcRun(in []byte) (interface{}, error) {
 		case <-doneCh:
 		case <-time.After(60 * time.Second):
 			hung = true
+		}
+		if c.Slow && !hung {
+			select {
+			case <-slowDone:
+			case <-time.After(20 * time.Second):
+			}
+			os.Remove(outBase + ".0")
+			os.Rename(outBase+".copy", outBase+".0")
 		}
 		errText := ""
 		if ab != nil {
